@@ -210,6 +210,13 @@ def h_ioworker(ctx, nmsgs, ncalls, plan):
   w.pinger = env.DummyPinger()
   closes = []
   w.on_close = lambda worker: closes.append(worker)
+  # the application's close handler uses the worker once more - says goodbye and closes it defensively (re-entrant use while the close is in
+  # progress): the dead socket is not written to, and the close is still reported once
+  handled = []
+  def on_closed(worker):
+    handled.append(worker)
+    if len(handled) < 5: worker.send_fast(b'BYE'); worker.close()
+  w.close_handler = on_closed
   class Loop:
     _workers = set(); _BUF_SIZE = 8192
   loop = Loop(); loop._workers = {w}
@@ -232,6 +239,7 @@ def h_ioworker(ctx, nmsgs, ncalls, plan):
     ctx.witness('fatal')
     ctx.check('worker closed', w.closed)
     ctx.check('close reported exactly once', len(closes) == 1)
+    ctx.check('the close handler runs exactly once', len(handled) == 1)
   else:
     ctx.witness('clean')
     ctx.check('send buffer drained', len(w.send_buf) == 0)
